@@ -7,15 +7,35 @@
    failure_local; other worker: check_completed -> environment -> Worker::notify_result; awaiter
    registered after the failure: query_failed_registers); Worker::handle_command and
    Environment::handle_event fail only on a client's misuse / an unrouted process id.
+   Also PROVED (phase 3), for every state, action and oracle: step_errs_only — the complete list of
+   ways a step of the model returns Err:
+     Worker.step      : WorkerErr only if a ResumeProcess / GetResult command (issued only by client
+                        calls) is among the commands it handles; any other Fault is BadOracle (the
+                        oracle does not describe a possible slice — not an error of the code);
+     Environment.step : only if some queued event names a process id that is not routed;
+     client calls, time: never.
    NOT PROVED (partial; full statements kept here):
-     awaiters_get_same_error : forall sigma, run (init nw) sigma = Good s -> every process that has a
+     awaiters_get_same_error_partial :
+                               forall sigma, run (init nw) sigma = Good s -> every process that has a
                                failed process t in `awaiting` and whose await of t was answered
-                               has p_res = the error of t (the global composition of the hops).
-     step_never_errs         : forall sigma from init with client calls naming started processes,
-                               run (init nw) sigma is never Fault (WorkerErr _ | EnvErr _) (needs the
-                               invariant "every process id in a queued event is routed").
+                               has p_res = the error of t. NOT an invariant as stated: an awaiter of
+                               two failing processes t1, t2 is completed with the error of t1 and
+                               then OVERWRITTEN with the error of t2 (upd_proc .. with_res, both in
+                               finish/notify_local and Worker::notify_result) — the code keeps the
+                               last one. What holds and is proved is hop-wise: the error value is
+                               unchanged on every hop, and an awaiter still awaiting t is completed
+                               with exactly t's error at the moment the notification is handled.
+     step_never_errs_partial : forall sigma from init, run (init nw) sigma is never
+                               Fault (EnvErr _): by step_errs_only this is the invariant
+                               `events_routed` ("every process id in a queued event is routed"); it
+                               needs (a) oracle honesty: Send / Await actions name allocated process
+                               ids (the VM obtains pids only from spawn / self / messages), and
+                               (b) a pass "awaiter ids recorded in awaiters_for_target are routed"
+                               over the worker operations, which is not written. WorkerErr: excluded
+                               class is exactly "the client calls resume_process / request_result
+                               for a process that is not there / not sleeping / failed".
    Outside this model: the debug panic of F9 (heap accounting, C06; repaired by b6882e1). *)
-From Quiver Require Import sys.Proto sys.ProtoFail sys.ProtoExamples.
+From Quiver Require Import sys.Proto sys.ProtoFail sys.ProtoExamples sys.ProtoErrs.
 
 Theorem C15_failure_local : forall p e h hint w w',
   NoDup (map fst (w_procs w)) ->
@@ -80,3 +100,32 @@ Theorem C15_nonvacuous :
     alookup 2 (w_procs w') = Some bystander_proc /\ w_selecting w' = [0].
 Proof. exact failure_local_applies. Qed.
 Print Assumptions C15_nonvacuous.
+
+(* ---- phase 3 *)
+Theorem C15_worker_step_errs_only_on_client_commands : forall i now k o nd f,
+  node_step i now k o nd = Fault f ->
+  is_oracle_fault f \/ (is_worker_err f /\ existsb client_cmd (fst (split_at k (n_cmd nd))) = true).
+Proof. exact worker_step_errs_only_on_client_commands. Qed.
+Print Assumptions C15_worker_step_errs_only_on_client_commands.
+
+Theorem C15_env_step_never_errs_on_routed_ids : forall s ks,
+  events_routed s -> exists s', sys_step s (E ks) = Good s'.
+Proof. exact env_step_never_errs_on_routed_ids. Qed.
+Print Assumptions C15_env_step_never_errs_on_routed_ids.
+
+Theorem C15_step_errs_only : forall s a f, sys_step s a = Fault f ->
+  match a with
+  | W i k o => exists nd, nth_error (s_nodes s) i = Some nd /\
+                 (is_oracle_fault f \/ (is_worker_err f /\ existsb client_cmd (fst (split_at k (n_cmd nd))) = true))
+  | E ks => ~ events_routed s
+  | T _ | X _ => False
+  end.
+Proof. exact step_errs_only. Qed.
+Print Assumptions C15_step_errs_only.
+
+Theorem C15_error_classes_nonvacuous :
+  node_step 0 0 None (orc None idle_did) {| n_w := new_worker; n_cmd := [CResume 5]; n_evt := [] |} = Fault (WorkerErr 1) /\
+  sys_step {| s_nodes := [{| n_w := new_worker; n_cmd := []; n_evt := [EDeliverA 7 (mkMsg 0 0 0)] |}];
+              s_env := {| e_router := []; e_next := 0; e_pending := [] |}; s_clock := 0 |} (E []) = Fault (EnvErr 1).
+Proof. exact (conj worker_err_on_client_misuse env_err_on_unrouted_id). Qed.
+Print Assumptions C15_error_classes_nonvacuous.
